@@ -116,8 +116,9 @@ def is_boolean_attribute(attr: AbbreviationAttribute, config: Config):
     if attr.boolean:
         return True
 
+    # NB: user may list names the way a framework spells them: `allowFullScreen`
     name = (attr.name or '').lower()
-    return name in config.options.get('output.booleanAttributes', [])
+    return any(name == item.lower() for item in config.options.get('output.booleanAttributes', []))
 
 def self_close(config: Config):
     "Returns a token for self-closing tag, depending on current options"
